@@ -868,7 +868,11 @@ func (ch *Channel) Close() {
 		// Stop the idle connections timer.
 		ch.mutable.idleSweep.Stop()
 
-		ch.mutable.state = ChannelStartClose
+		// A repeated Close must not move the state backwards (e.g. from
+		// ChannelInboundClosed back to ChannelStartClose).
+		if ch.mutable.state < ChannelStartClose {
+			ch.mutable.state = ChannelStartClose
+		}
 		if len(ch.mutable.conns) == 0 {
 			ch.mutable.state = ChannelClosed
 			channelClosed = true
